@@ -481,7 +481,25 @@ fn exact(case: &Case, data: &[u8], ctx: &mut Ctx) -> Option<Violation> {
         macro_rules! run {
             ($rd:expr) => {{
                 let mut rd = $rd;
-                let end = read_all(&mut rd, &sizes, total + (1 << 20), &mut out);
+                let mut end = read_all(&mut rd, &sizes, total + (1 << 20), &mut out);
+                // end of stream is final: further reads return Ok(0) and touch nothing
+                if matches!(end, ReadEnd::Eof) {
+                    let mut extra = [0u8; 64];
+                    for _ in 0..2 {
+                        match rd.read(&mut extra) {
+                            Ok(0) => {}
+                            Ok(n) => {
+                                end = ReadEnd::Err(std::io::Error::new(std::io::ErrorKind::Other, format!("VERIF: read after end of stream returned {n} bytes")));
+                                break;
+                            }
+                            Err(e) if e.kind() == std::io::ErrorKind::Interrupted => {}
+                            Err(e) => {
+                                end = ReadEnd::Err(std::io::Error::new(std::io::ErrorKind::Other, format!("VERIF: read after end of stream failed: {e}")));
+                                break;
+                            }
+                        }
+                    }
+                }
                 let consumed_now = stats.lock().unwrap().bytes;
                 let inner = rd.into_inner();
                 let second = if want_second && matches!(end, ReadEnd::Eof) {
